@@ -362,8 +362,32 @@ func oracleC03(t *Trace, v *vset) {
 				}
 			}
 		}
+		// r4/r5 against the reference model: when every outcome is a function of the action alone
+		// (and no fault stretched an invocation past its timeout) the verdict of every block and of
+		// the plan is determined by the spec; the engine must agree.
+		if specConstant(l.Spec) && t.Res.Faults["delay"] == 0 && t.Res.Faults["slow-read-reply"] == 0 && !t.Res.Hang && len(t.Crashes) == 0 && planStarted(t, l.Plan) {
+			wantPlan, _, wantBlocks := refOutcomeBlocks(l.Spec)
+			for bi, want := range wantBlocks {
+				if got := status(f, blockPath(l.Plan, bi)); got != want {
+					v.addf("C03", "C03.r4", "block verdict differs from the reference model (model "+stName(want)+", engine "+stName(got)+")", nil, "block %s", blockPath(l.Plan, bi))
+				}
+			}
+			if got := status(f, pp); got != wantPlan {
+				v.addf("C03", "C03.r5", "plan verdict differs from the reference model (model "+stName(wantPlan)+", engine "+stName(got)+")", nil, "plan %s", pp)
+			}
+		}
 		if failedBlock >= 0 && status(f, pp) != StFailed {
 			v.addf("C03", "C03.r5", "plan not Failed after a Failed block", nil, "plan %s is %s although block %d Failed", pp, stName(status(f, pp)), failedBlock)
 		}
 	}
+}
+
+// planStarted: some Start of the plan was accepted and a Wait on it returned.
+func planStarted(t *Trace, plan int) bool {
+	for _, wa := range startedWaits(t) {
+		if wa.Plan == plan && wa.Snap != nil {
+			return true
+		}
+	}
+	return false
 }
